@@ -231,4 +231,40 @@ theorem groupByDistrict_spec (g : MG Name) (name : β → Name) (xs : List β) (
         subst this
         exact hbq
 
+/-- the groups are the values of a dictionary that satisfies the loop invariant -/
+theorem groupByDistrict_inv (g : MG Name) (name : β → Name) (xs : List β) (groups : List (List β))
+    (h : groupByDistrict g name xs = .ok groups) :
+    ∃ m, groups = m.map (·.2) ∧ GroupInv g name m xs := by
+  unfold groupByDistrict at h
+  simp only [bind, Except.bind] at h
+  cases hf : xs.foldlM (groupStep g name) [] with
+  | error e => rw [hf] at h; cases h
+  | ok m =>
+    rw [hf] at h
+    simp only [pure, Except.pure, Except.ok.injEq] at h
+    refine ⟨m, h.symm, ?_⟩
+    have h0 : GroupInv g name ([] : List (List Name × List β)) [] := by
+      refine ⟨?_, ?_, ?_⟩
+      · intro p hp; cases hp
+      · intro x hx; cases hx
+      · simp
+    have := groupInv_foldlM g name xs [] [] h0 m hf
+    simpa using this
+
+/-- **the groups are pairwise disjoint** (two groups never share an element: they have different districts) -/
+theorem groupByDistrict_pairwise (g : MG Name) (name : β → Name) (xs : List β) (groups : List (List β))
+    (h : groupByDistrict g name xs = .ok groups) : groups.Pairwise (fun a b => ∀ x ∈ a, x ∉ b) := by
+  obtain ⟨m, rfl, inv⟩ := groupByDistrict_inv g name xs groups h
+  rw [List.pairwise_map]
+  have hk : m.Pairwise (fun a b => a.1 ≠ b.1) := by
+    have := inv.keys
+    unfold List.Nodup at this
+    rwa [List.pairwise_map] at this
+  refine hk.imp_of_mem ?_
+  intro a b ha hb hab x hxa hxb
+  have h1 := (inv.sound a ha x hxa).2
+  have h2 := (inv.sound b hb x hxb).2
+  rw [h1] at h2
+  exact hab (by simpa using h2)
+
 end Y0.Ctf
